@@ -26,3 +26,43 @@ PROPS["C03"] = dict(
         "the harness upstream token (adapter variant) is assumed correct",
     ],
 )
+
+import os, subprocess, sys
+import vcheck as _V
+
+def gen_shapes(name, seed, count, per_tu=6, extra=()):
+    """Runs exprfuzz/gen_shapes.py into _build/gen/<name>; rewrites only files whose content changed."""
+    out = os.path.join(_V.BUILD, "gen", name)
+    tmp = out + ".tmp"
+    os.makedirs(tmp, exist_ok=True)
+    for f in os.listdir(tmp):
+        os.unlink(os.path.join(tmp, f))
+    cmd = [sys.executable, os.path.join(_V.VERIF, "exprfuzz/gen_shapes.py"), "--seed", str(seed), "--count", str(count),
+           "--out", tmp, "--per-tu", str(per_tu)] + list(extra)
+    r = subprocess.run(cmd, stdout=subprocess.PIPE, stderr=subprocess.PIPE, text=True)
+    if r.returncode != 0:
+        raise RuntimeError("gen_shapes failed: " + r.stderr)
+    os.makedirs(out, exist_ok=True)
+    new = sorted(os.listdir(tmp))
+    for f in os.listdir(out):
+        if f not in new:
+            os.unlink(os.path.join(out, f))
+    files = []
+    for f in new:
+        a, b = os.path.join(tmp, f), os.path.join(out, f)
+        data = open(a).read()
+        if not os.path.exists(b) or open(b).read() != data:
+            open(b, "w").write(data)
+        files.append(b)
+    return files
+
+_EF_QUICK = gen_shapes("ef_quick", 20260923, int(os.environ.get("VERIF_EF_COUNT", "16")), extra=["--exclude", "K_SIR"])
+_EF_ASSUME = [
+    "sequential event mode: one thread, the driver chooses the order of deferred completions and stop requests (schedules at callback granularity, not atomic granularity)",
+    "the reference model encodes doc/api_reference.md plus the precedence rules named in the property anchors; a model rule without a citation is not used",
+]
+for _p in ("C01", "C02", "C04", "C05"):
+    PROPS[_p] = dict(level="fault_enumeration" if _p == "C02" else "exploration",
+                     units=[Unit("exprfuzz", "harness/exprfuzz.cpp", cfg="p17", extra_src=_EF_QUICK, max_size=90,
+                                 quick=(40, 600000), thorough=(600, 30000000))],
+                     assumptions=_EF_ASSUME)
